@@ -52,7 +52,7 @@ FIRST = ("action_type", "message_type", "action_status")
 def names():
     alphabet = st.characters(blacklist_categories=("Cs", "Cc", "Zs", "Zl", "Zp"), blacklist_characters="=\x85\xa0")
     return st.one_of(st.sampled_from(["a", "key", "x_y", "résumé", "n", "0", "-"]), st.text(alphabet=alphabet, min_size=1, max_size=6)).filter(
-        lambda s: s not in REQUIRED and s not in FIRST and not any(c.isspace() for c in s)
+        lambda s: s not in REQUIRED and s not in FIRST and s != V.TAG and not any(c.isspace() for c in s)
     )
 
 
